@@ -25,13 +25,26 @@ PROP = dict(
         "unit by itself iff it is a break word or has no non-break single-character neighbour; otherwise it is recorded only inside the "
         "concatenated run (records_strict_refuted shows the strict reading is false by design; counted in "
         "generator_stats.single_chars_recorded_only_inside_a_run). Break-word singles ARE learned individually (pre-survey said never).",
-        "top_is_default (partial): proved here = find_best_phrase picks the strictly most frequent phrase, the breadth-first shortest_path "
-        "takes the whole-range edge when node 0 has it, trim_paths then discards every other k-path; hypotheses (not proved, part of the "
-        "C03 conversion model; compared with the real code by every `learn default` record) = find_intervals puts that edge (one per end) "
-        "into graph[0] and find_k_paths returns the shortest path first, the other paths being non-empty intervals inside the range. "
-        "Consequence: the score proviso of the pre-survey is vacuous for this engine (generator_stats."
-        "default_is_x_although_a_split_outscores_it counts real runs where a split out-scores X and X is still the default); "
-        "top_is_default_scored keeps the proviso version for an engine without trimming.",
+        "top_is_default keeps its graph hypotheses (hg, hedge, huniq, hrest) over C08's own small graph model; top_is_default_linked "
+        "(Proofs/LearnLinkEditor.lean) DISCHARGES them on C03's engine model (Model/Conversion.lean): for a buffer holding exactly the "
+        "syllables (Bare: no selection, no Break gap inside; bareComp = what typing them alone leaves), every pick oracle in range, every "
+        "strategy, and a dictionary answer in which X's frequency is strictly above every phrase with another text, convertChewing returns "
+        "exactly ONE alternative, the single interval X. Proved from the model: find_best_phrase over the whole range returns the dominant "
+        "phrase (findBestPhrase_whole), find_intervals has that whole-range edge (whole_edge) and one edge per (start, end) (edge_unique), "
+        "BFS shortest_path returns it (shortestPath_direct), find_k_paths keeps it first (kLoop_prefix), every other k-path is made of graph "
+        "edges inside the range (C03 findKPaths_chain / find_intervals_valid) and is trimmed (trimPaths_direct); a single path is never scored, "
+        "so neither ScoreBound nor WellFormed is needed, and the score proviso of the pre-survey is vacuous for this engine "
+        "(generator_stats.default_is_x_although_a_split_outscores_it counts real runs where a split out-scores X and X is still the default; "
+        "top_is_default_scored keeps the proviso version for an engine without trimming). REMAINING link hypothesis of top_is_default_linked / "
+        "becomes_default_linked: SamePairs = the dictionary's answer for the syllables has the same (text, frequency) pairs as C08's merged "
+        "lookup (order-free). becomes_default_layered_linked discharges it too for C09's layers: system layers given by entry lists "
+        "(Dict.ofEntries), a TrieBuf user layer answering as the map the learned UserMap denotes (URep + IsLookup, as learned_persists_linked), "
+        "a UserMap without shadowed entries (NoShadow: holds for [] and is kept by learning) - via samePairs_layers + dominant_layered "
+        "(C09.layered_union: the max-merge keeps dominance). top_is_default_env_linked: the same for the editor's "
+        "env.convert under Link.EngineIsC03 (Proofs/EditorLink.lean: env.convert IS Conv.convert on buffers of at most 128 symbols without an "
+        "empty spelling - the hypothesis under which C03 discharges C01's EnvOK). NOT proved: EngineIsC03 itself for the real engine (it is "
+        "C03's model/implementation correspondence; here compared with the real code by every `learn default` record) and that real system "
+        "dictionaries are entry lists with exact-key lookup (Trie layers: C11)",
         "after close and reopen: learned_persists keeps the explicit hypothesis `reopening preserves the map`; learned_persists_linked "
         "(Proofs/LearnLink.lean) DISCHARGES it: the hypothesis is replaced by C10.durable_lookup_linked (C10's protocol, every schedule "
         "of the snapshot writer, over C09's concrete TrieBuf layers / entries() / TrieBuilder) and C09.layered_over_map; "
@@ -42,7 +55,16 @@ PROP = dict(
         "the Rust types, initial file written from valid entries, every snapshot within C11's format limits (Fits), key of non-zero syllables. "
         "STILL TRUSTED there: the control skeleton of C10's step model (its schedule-exact correspondence). The harness checks persistence on "
         "file-backed traces, waiting for the background writer before closing (the in-flight-writer schedule is C10's F12)",
-        "candidate window = merged lookup of the range (C07); commit of a chosen phrase yields the single interval (C04)",
+        "candidate window: learned_is_candidate_linked / learned_in_open_list_linked (Proofs/LearnLinkEditor.lean) prove on the EDITOR model that "
+        "the list PhraseSelector::candidates / Selecting::candidates returns on a range holding the syllables contains every phrase live in the "
+        "user dictionary (C07.phrase_list_complete + C09.layered_over_map); learned_is_candidate_typed_alone_linked: with the syllables typed "
+        "alone, cursor at the beginning, choosing forward, Selecting::open_phrase DOES open the list over the whole buffer and the phrase is in it "
+        "(range computed by PhraseSelector::init, no selector hypothesis); learned_is_candidate_after_reopen_linked composes with "
+        "learned_persists_linked (new session reading the file found at the path). Explicit link hypotheses: env.lookupAll d key Standard = "
+        "Layered.lookupAll (sys ++ [user TrieBuf layer]) key Standard for the dictionary state d; the user layer answers the exact lookup as the map "
+        "the UserMap denotes (URep + IsLookup; C09.lookup_exact gives it for every state with TrieBuf.Inv); LookupStrategy::Standard (the fuzzy "
+        "strategy over pending entries is C09's recorded class); the highlighted range holds the syllables (C07.RangeIs; C07.range_is_syllables). "
+        "Commit of a chosen phrase yields the single interval: C04",
         "F07 (bare public estimate() panics when freq < 10 or freq < orig_freq in the long-gap band, or orig_freq > max_freq in a rising band) "
         "is recorded against the function: estimate_no_panic gives the exact precondition, the model predicts every panic of the grid "
         "(generator_stats.est_panics_predicted_F07); unreachable from the editor (no timestamp is passed => short band only). The stored-time-"
@@ -61,10 +83,13 @@ MANIFEST = dict(
          "under exactly its syllables (units characterised: multi-character phrases, break-word singles, maximal runs of other singles; strict "
          "single-character reading refuted by design), user dictionary unchanged when disabled, learned phrase listed by the merged lookup, "
          "50 <= 64 learnings put X strictly above every homophone for all frequency pairs <= 1 000 000 (monotone gap induction, no pair "
-         "enumeration; 50 is tight), and then X is the default conversion of the bare syllables: BFS shortest path = whole-range edge and "
-         "trim_paths removes all competitors are proved, the graph construction is hypothesis + correspondence (partial). Persistence across reopen: learned_persists (explicit hypothesis) and learned_persists_linked (hypothesis discharged by C10's durability theorem over C09's concrete TrieBuf + C09's Layered theorem; and learned_persists_bytes_linked: the file as bytes, C11 under C09.file_layer_is_C11, hypotheses Fits / valid arguments explicit) + harness. "
+         "enumeration; 50 is tight), and then X is the default conversion of the bare syllables: on C08's own graph model with graph-construction "
+         "hypotheses (top_is_default) AND, linked, on C03's engine model without them (top_is_default_linked, becomes_default_linked: "
+         "convertChewing returns exactly the single interval X for every pick oracle; becomes_default_layered_linked: end to end over C09's Layered "
+         "with entry-list system layers and a TrieBuf user layer). Candidate clause linked to the editor model: learned_is_candidate_linked, "
+         "learned_in_open_list_linked, learned_is_candidate_typed_alone_linked (C07 completeness + C09 Layered), learned_is_candidate_after_reopen_linked. Persistence across reopen: learned_persists (explicit hypothesis) and learned_persists_linked (hypothesis discharged by C10's durability theorem over C09's concrete TrieBuf + C09's Layered theorem; and learned_persists_bytes_linked: the file as bytes, C11 under C09.file_layer_is_C11, hypotheses Fits / valid arguments explicit) + harness. "
          "Tie: translator + per-step correspondence through a real Editor (in-memory and file-backed user dictionaries) + exact estimate grid.",
     note="Trusted: Lean kernel (axioms propext, Classical.choice, Quot.sound only), tools/extract.py, the harness and the compiled model driver. "
-         "partial clauses: top_is_default (graph-construction hypotheses), persistence (learned_persists_linked: reopen hypothesis discharged by C10.durable_lookup_linked + C09.layered_over_map; learned_persists_bytes_linked: also the trie-file byte round trip, by C11 through C09.file_layer_is_C11, with explicit Fits / validity hypotheses; remaining: the control skeleton of C10's step model), candidate window (C07).",
+         "LEVEL partial clauses: default conversion (top_is_default_linked discharges the graph hypotheses on C03's model; remaining link hypotheses: the dictionary's answer has the (text, frequency) pairs of C08's merged lookup - discharged for entry-list system layers + TrieBuf user layer by becomes_default_layered_linked - and, for the editor's env.convert, Link.EngineIsC03 (top_is_default_env_linked) = C03's correspondence), persistence (learned_persists_linked: reopen hypothesis discharged by C10.durable_lookup_linked + C09.layered_over_map; learned_persists_bytes_linked: also the trie-file byte round trip, by C11 through C09.file_layer_is_C11, with explicit Fits / validity hypotheses; remaining: the control skeleton of C10's step model), candidate window (learned_is_candidate_linked: proved on the editor model from C07 + C09 under the explicit link hypothesis env.lookupAll = Layered over system layers + the user layer denoting the UserMap, Standard strategy).",
     technique="Lean 4 proof (induction, invariants, omega over translator-regenerated constants) + sampled model/implementation correspondence with a statement-level oracle",
 )
